@@ -36,6 +36,7 @@ type World struct {
 	lastMsgs   map[uuid.UUID]*ent.Message
 	lastTopics map[uuid.UUID]*ent.Topic
 	lastDump   string
+	faultMode  bool
 	api        *ApiWorld
 }
 
@@ -88,7 +89,7 @@ func i64Opt[T ~int64](p *T) string {
 
 // Dump renders the five tables in the canonical form of Mmmbbb.Codec.dump.
 func (w *World) Dump() string {
-	ctx := w.Ctx
+	ctx := qctx
 	c := w.Client
 	var sb strings.Builder
 	ts, err := c.Topic.Query().All(ctx)
